@@ -10,6 +10,7 @@ import (
 	"os"
 	"runtime/debug"
 	"sort"
+	"strings"
 
 	"dblint/internal/core"
 	"dblint/internal/props"
@@ -28,6 +29,21 @@ func main() {
 		sort.Strings(ids)
 		for _, id := range ids {
 			fmt.Printf("%s  %s\n", id, props.Registry[id].Title)
+		}
+	case "doc":
+		var ids []string
+		for id := range props.Registry {
+			ids = append(ids, id)
+		}
+		sort.Strings(ids)
+		for _, id := range ids {
+			sp := props.Registry[id]
+			fmt.Printf("### %s %s — claimed, `other`\n\n", id, sp.Title)
+			fmt.Printf("**Decided.** %s\n\n", sp.Meta.Explanation)
+			fmt.Printf("**Not decided (✘).** %s\n\n", sp.Meta.NotDecided)
+			if len(sp.Meta.Assumptions) > 0 {
+				fmt.Printf("**Assumes.** %s\n\n", strings.Join(sp.Meta.Assumptions, "; "))
+			}
 		}
 	case "check":
 		fs := flag.NewFlagSet("check", flag.ExitOnError)
@@ -88,6 +104,29 @@ func check(id, tier, repo, verif string, noposex bool) (code int) {
 	run.Stats["module_packages"] = len(prog.Pkgs)
 	run.Stats["module_functions"] = len(prog.ModuleFuncs())
 	spec.Run(run)
+	if tier == "thorough" {
+		vs := runVariants(id, repo, verif)
+		armed, applied := 0, 0
+		for _, v := range vs {
+			if v.Applied {
+				applied++
+			}
+			if v.Armed {
+				armed++
+			}
+			fmt.Printf("variant %-12s applied=%-5v armed=%-5v %v %s\n", v.Name, v.Applied, v.Armed, v.Rules, v.Note)
+		}
+		run.Extras["variants"] = vs
+		run.Stats["variants_total"] = len(vs)
+		run.Stats["variants_applied"] = applied
+		run.Stats["variants_armed"] = armed
+		if id == "C10" {
+			run.Extras["compiler_bce_cross_reference"] = bceCrossRef(run, repo, []string{"./tds/", "./asetypes/", "./asetime/"})
+		}
+		if id == "C17" {
+			run.Extras["compiler_bce_cross_reference"] = bceCrossRef(run, repo, []string{"./dsn/"})
+		}
+	}
 	known := core.LoadKnown(verif + "/known_findings.json")
 	meta := spec.Meta
 	meta.CheckerCmd = fmt.Sprintf("%s/bin/dblint check -property %s -tier %s", verif, id, tier)
